@@ -73,10 +73,15 @@ Definition enqueue (lease : bool) (s : rstate) (w : wire) : rstate :=
           r_queue := r_queue s ++ [w]; r_cid := r_cid s; r_rrc := r_rrc s; r_closed := r_closed s |}
   else s.
 
+(* markPacketAsValid.  Since commit 5206069 an unprotected (epoch 0) record is checked against the
+   window but never commits a slot: nothing authenticates its number. *)
 Definition mark (W : nat) (s : rstate) (w : wire) : rstate :=
+  if w_epoch w =? 0 then s else
   let win' := fst (accept maxseq48 (get_win W (w_epoch w) (r_wins s)) (w_seq w)) in
   {| r_epoch := r_epoch s; r_wins := set_win (w_epoch w) win' (r_wins s); r_init := r_init s;
      r_queue := r_queue s; r_cid := r_cid s; r_rrc := r_rrc s; r_closed := r_closed s |}.
+
+Definition omark (e q : N) : list out := if e =? 0 then [] else [OMark e q].
 
 Definition set_epoch (s : rstate) (e : N) : rstate :=
   {| r_epoch := e; r_wins := r_wins s; r_init := r_init s;
@@ -91,7 +96,7 @@ Definition dispatch (W : nat) (lease : bool) (s : rstate) (w : wire) (c : conten
   let e := w_epoch w in let q := w_seq w in
   match c with
   | CHs pushok retr =>
-      if pushok then (mark W s w, [OMark e q; OHs retr]) else (s, [])
+      if pushok then (mark W s w, omark e q ++ [OHs retr]) else (s, [])
   | CAck =>
       (* handleRecordContent: ACKs are only ever sent protected; an unprotected one is discarded *)
       if e =? 0 then (s, []) else (mark W s w, [OMark e q; OAck])
@@ -99,12 +104,12 @@ Definition dispatch (W : nat) (lease : bool) (s : rstate) (w : wire) (c : conten
       let s1 := mark W s w in
       let reply := if desc =? desc_close_notify then [OAlert alert_warning desc_close_notify] else [] in
       if (level =? alert_fatal) || (desc =? desc_close_notify)
-      then (set_closed s1, OMark e q :: reply ++ [OClosed])
-      else (s1, OMark e q :: reply ++ [OErr])
+      then (set_closed s1, omark e q ++ reply ++ [OClosed])
+      else (s1, omark e q ++ reply ++ [OErr])
   | CCCS =>
       if negb (r_init s) then (enqueue lease s w, [])
       else if r_epoch s + 1 =? e + 1
-           then (mark W (set_epoch s (e + 1)) w, [OMark e q])
+           then (mark W (set_epoch s (e + 1)) w, omark e q)
            else (s, [])
   | CApp p =>
       (* unprotected application data is refused silently *)
